@@ -19,6 +19,7 @@ pub mod c16;
 pub mod c17;
 pub mod c18;
 pub mod c19;
+pub mod c20;
 
 pub fn dispatch(ctx: &Ctx, replay: Option<String>) -> ! {
     match ctx.id.as_str() {
@@ -41,6 +42,7 @@ pub fn dispatch(ctx: &Ctx, replay: Option<String>) -> ! {
         "C17" => c17::run(ctx, replay),
         "C18" => c18::run(ctx, replay),
         "C19" => c19::run(ctx, replay),
+        "C20" => c20::run(ctx, replay),
         other => machinery_fail(&format!("unknown property id {}", other)),
     }
 }
